@@ -7,24 +7,17 @@ From WV Require Import Lib.PyBytes Gen.GenTables Model.Task Proof.TaskLines Proo
 Import ListNotations.
 Local Open Scope N_scope.
 
-(* scripts whose in-place mutations of header pairs (possible only when the pairs
-   were passed as lists) write clean strings; in particular scripts without AMutate *)
-Definition act_ok (a : action) : Prop :=
-  match a with AMutate _ _ v => clean v | _ => True end.
+(* Every script is admissible: since start_response stores fresh tuples an
+   in-place mutation of a header pair (AMutate) has no effect.  [app_ok] is kept
+   as the (now trivial) side condition of the invariant lemmas. *)
+Definition act_ok (a : action) : Prop := True.
 Definition step_ok (s : istep) : Prop := Forall act_ok (s_acts s).
 Definition app_ok (a : app) : Prop := Forall act_ok (a_call a) /\ Forall step_ok (a_steps a).
 
-Definition no_mutation_act (a : action) : Prop :=
-  match a with AMutate _ _ _ => False | _ => True end.
-Definition no_mutation (a : app) : Prop :=
-  Forall no_mutation_act (a_call a) /\ Forall (fun s => Forall no_mutation_act (s_acts s)) (a_steps a).
-
-Lemma no_mutation_ok a : no_mutation a -> app_ok a.
+Lemma app_ok_all a : app_ok a.
 Proof.
-  intros [H1 H2]. split.
-  - eapply Forall_impl; [|exact H1]. intros [] H; simpl in *; auto. contradiction.
-  - eapply Forall_impl; [|exact H2]. intros s Hs. unfold step_ok.
-    eapply Forall_impl; [|exact Hs]. intros [] H; simpl in *; auto. contradiction.
+  split; apply Forall_forall; intros x _; [exact I|].
+  apply Forall_forall. intros y _. exact I.
 Qed.
 
 Lemma write_soon_writes disc ch it ch' o : write_soon disc ch it = (ch', o) ->
@@ -197,14 +190,6 @@ Proof.
 Qed.
 
 
-Lemma mutate_nth_clean i isv v l : clean v -> Forall clean_field l -> Forall clean_field (mutate_nth i isv v l).
-Proof.
-  intros Hv H. revert i. induction H as [|h l [H1 H2] Hl IH]; intro i; [destruct i; cbn; constructor|].
-  destruct i; cbn [mutate_nth].
-  - constructor; auto. destruct isv; split; auto.
-  - constructor; auto. split; auto.
-Qed.
-
 (* chunked_response is only ever set while the head is being built: along
    every path without an exception it implies wrote_header *)
 Definition Chk (s : st) : Prop := t_chunked (fst s) = true -> t_wrote_header (fst s) = true.
@@ -258,10 +243,7 @@ Proof.
     intro Hx. rewrite F1. apply K. rewrite <- F3. exact Hx.
   - eapply Post_task_write; eauto. split; auto.
   - inversion H; subst. split; auto; discriminate.
-  - inversion H; subst. clear H. destruct s as [t ch]. cbn [fst snd]. split.
-    + apply (Inv_task_only t _ ch); [reflexivity| |exact I]. intros [C1 C2]. split; auto. cbn [t_rh set_rh].
-      apply mutate_nth_clean; auto.
-    + intros _. exact K.
+  - inversion H; subst. split; auto.
 Qed.
 
 Lemma Post_run_actions l : forall s s' o, Forall act_ok l ->
@@ -311,7 +293,8 @@ Proof.
   destruct r1 as [[t ch] [u|e]]; cbn [fst snd] in P1; [|inversion H; subst; destruct P1 as [PA PB]; split; [exact PA|intro X; discriminate X]].
   apply Post_Good in P1. destruct P1 as [I1 K1].
   cbn [fst] in *.
-  destruct (t_chunked t) eqn:Ec; [|inversion H; subst; split; auto; intros _; unfold Chk; cbn; congruence].
+  destruct (t_chunked t) eqn:Ec; cbn [andb] in H; [|inversion H; subst; split; auto; intros _; unfold Chk; cbn; congruence].
+  destruct (negb (r_head r)); [|inversion H; subst; split; auto].
   destruct (write_soon disc ch (WBytes chunk_terminator)) as [ch1 o1] eqn:Ews. inversion H; subst. clear H.
   specialize (K1 Ec). cbn [fst] in K1. split.
   - eapply Inv_grow; eauto. eapply write_soon_grows; eauto.
@@ -353,6 +336,7 @@ Proof.
     destruct s as [t ch].
     set (size := if seekable then _ else 0%Z).
     destruct (size =? 0)%Z; auto.
+    destruct (t_wrote_header t) eqn:Ewh0; auto.
     set (t1 := if match t_clen t with Some n => negb (n =? size)%Z | None => true end then _ else t).
     assert (G1 : Good (t1, ch)).
     { subst t1. destruct (match t_clen t with Some n => negb (n =? size)%Z | None => true end); auto.
